@@ -1,0 +1,6 @@
+//go:build !verif
+
+package client
+
+// verifLock is a no-op unless built with the tag "verif".
+func verifLock(ev, class, mode string, obj interface{}) {}
